@@ -52,6 +52,18 @@ CLAIMED = {
                      "symbolic_mode() / rule_mode() in one path on the same symbolic data; each outcome is proved equal to the "
                      "reference for EVERY data valuation, user predicates must have been executed and rule heads must be real "
                      "instances."),
+    "C04": dict(design_ref="DESIGN.md 7/C04",
+                text="Bounded-exhaustive symbolic execution over histories AND data: two queries built over the same Variable "
+                     "objects undergo an enumerated history (H<=2 quick, H<=3 thorough) of FULL / TAKE(k)+close / DROP(k) / "
+                     "FAULT(j) operations in which k (results taken) and j (the call at which the user predicate raises) are "
+                     "SYMBOLIC and decided by z3 against running counters; every complete evaluation and a freshly built copy "
+                     "are proved equal to the reference for every data valuation; user domains (list/tuple/duplicate/one-shot "
+                     "generator) and objects must be left unchanged."),
+    "C07": dict(design_ref="DESIGN.md 7/C07",
+                text="Bounded-exhaustive symbolic execution: the domain is a logging one-shot generator; through a solver-chosen "
+                     "history of NEW/NEXT/CLOSE/FULL it is proved for every data valuation that evaluate() pulls nothing, that each "
+                     "delivered result is the NEXT qualifying element (z3: it qualifies and nothing between the previous result "
+                     "and it does) and that the log length is exactly max(previous, position+1); no element is pulled twice."),
 }
 
 NOT_APPLICABLE = {pid: PENDING for pid in ["C%02d" % i for i in range(1, 21)] if pid not in CLAIMED}
